@@ -5,7 +5,7 @@
 From Coq Require Import ZArith List Bool PrimFloat.
 Import ListNotations.
 Require Import PyBase Solver SolverFacts SolverF SolveAll Eval EvalFacts EvalFacts2 EvalFacts3 EvalF EvalExamples.
-Require Import EvalSolveAll EvalFortran EvalExamples2 EvalDeps.
+Require Import EvalSolveAll EvalFortran EvalFortranFrame EvalExamples2 EvalDeps.
 Require Fsic.Fortran.FSem Fsic.Fortran.FSolve.
 Require Fsic.Solver.SolveAllFacts.
 Open Scope Z_scope.
@@ -352,6 +352,29 @@ Section C04_fortran.
     log (fst (w_solve_t fm d o t s)) = log s /\
     agree_outside (fun i j => offset o <> 0 /\ In i (endo d) /\ j = p) (vals_of s) (vals_of (fst (w_solve_t fm d o t s))).
   Proof. exact (fortran_infeasible_never_served num sub absf ltb isfin zero evf fm d o t s p ec). Qed.
+
+  (* FortranEngine._evaluate(t): every t that is outside the span or leaves no room for the lags / leads is answered
+     with IndexError by the explicit index tests (codes 11 - 14) and the instance is left exactly as it was *)
+  Theorem C04_fortran_evaluate_infeasible_rejected (fm : FSolve.fmod) d t (s : mstate num) n :
+    FSolve.fm_lags fm = Z.of_nat (lags d) -> FSolve.fm_leads fm = Z.of_nat (leads d) ->
+    FSem.ncols_of num (vals_of s) = Z.of_nat n ->
+    (py_pos n t = None \/ exists p, py_pos n t = Some p /\ feasible d n p = false) ->
+    FSolve.w_evaluate num evf fm t s = (s, Raise IndexError).
+  Proof. exact (fortran_evaluate_infeasible_rejected num evf fm d t s n). Qed.
+
+  (* THE FRAME THEOREM OF THE FORTRAN ENGINE: for every equations block that writes only inside W (and keeps the array
+     lengths), every option set, both spellings of t, feasible or not, FortranEngine.solve_t changes no value cell
+     outside W and the endogenous rows (instance list: the wrapper's offset copy; module list: the compiled copy and the
+     zeroing under errors='replace') of period p; status and iterations change at p only; no hook event is added *)
+  Theorem C04_fortran_solve_t_frame (fm : FSolve.fmod) d o t s p (W : nat -> nat -> Prop) :
+    py_pos (length (status s)) t = Some p ->
+    hd 0%nat (shape (vals_of s)) = length (status s) ->
+    (forall r, In r (FSolve.fm_endo fm) -> 1 <= r <= Z.of_nat (length (vals_of s))) ->
+    (forall v, shape v = shape (vals_of s) -> agree_outside W v (evf (Z.of_nat p + 1) v)) ->
+    let s' := fst (w_solve_t fm d o t s) in
+    agree_outside (fun i j => W i j \/ ((In i (endo d) \/ In (Z.of_nat i + 1) (FSolve.fm_endo fm)) /\ j = p)) (vals_of s) (vals_of s') /\
+    sf_frame p s s' /\ log s' = log s.
+  Proof. exact (fortran_solve_t_frame num sub absf ltb isfin zero evf fm d o t s p W). Qed.
 End C04_fortran.
 
 (* ============ Part C: witnesses on IEEE binary64 ============ *)
@@ -415,9 +438,12 @@ Print Assumptions C04_solve_entry_monitored_eq.
 Print Assumptions C04_fortran_infeasible_rejected.
 Print Assumptions C04_fortran_infeasible_no_offset_no_change.
 Print Assumptions C04_fortran_infeasible_never_served.
+Print Assumptions C04_fortran_evaluate_infeasible_rejected.
+Print Assumptions C04_fortran_solve_t_frame.
 Print Assumptions C04_fortran_infeasible_after_offset_refuted.
 Print Assumptions ex_hyps_satisfiable.
 Print Assumptions exF_hyps.
 Print Assumptions ex_entry_hyps.
 Print Assumptions ex_entry_locate_ok.
 Print Assumptions ex_ordinary.
+Print Assumptions exF_frame_hyps.
